@@ -347,6 +347,105 @@ def base64_encoder_bits(chk, prog, rule="R3.base64_bits"):
         chk.ob(rule, fn, f"{name}: selected exactly when len % 3 == {k}", ok, "the padding case is chosen by a different condition")
 
 
+def base64_decoder_structure(chk, prog, rule="R3.base64_decoder"):
+    """The decoder is the inverse of the encoder by construction: input taken in groups of exactly 4 symbols (last group may be shorter),
+    a zeroed u32 accumulator per group, symbol i contributes value << (18 - 6i), '=' at position i ends the group, and the output is
+    bytes 1..end of the big-endian accumulator (end = 4, or the position of '=')."""
+    from .. import qlin
+    dec = [p for p in prog.bodies if p.endswith("Base64Decode>::decode")]
+    if not dec:
+        return
+    fn = dec[0]
+    b = prog.bodies[fn]
+    ch = b.calls_to(r"<impl \[T\]>::(chunks|chunks_exact|rchunks|windows|array_chunks)$")
+    chk.floor("Base64 decoder grouping call", len(ch), 1)
+    for blk, t in ch:
+        n = core.describe(prog, b, t["args"][1])
+        src = core.describe(prog, b, t["args"][0])
+        ok = t["callee"].endswith("::chunks") and n == ("lit", 4)
+        chk.ob(rule, fn, "the input is consumed in chunks(4): every symbol, including a short last group, is examined", ok,
+               f"{core.short(t['callee'])}({n}): with chunks_exact / other sizes trailing symbols are skipped or groups misaligned, so malformed input is accepted",
+               where=b.where(blk))
+        chk.ob(rule, fn, "the groups are cut from the whole input", desc_contains(src, lambda y: y[0] == "param" and y[1] == 1) and
+               not [c for c in core.desc_calls(src) if not core.re.search(r"(as_bytes|as_ref|deref|as_str|borrow)$", c[1])], f"{panics.short_desc(src)}", where=b.where(blk))
+    # accumulator: a u32 local with a zero definition inside the group loop and only `|=` updates
+    accs = [l for l, loc in enumerate(b.locals) if loc["ty"] == "u32" and len(b.defs().get(l, [])) > 2]
+    chk.floor("Base64 decoder accumulator", len(accs), 1)
+    if not accs:
+        return
+    acc = accs[0]
+    zero = [d for d in b.defs()[acc] if d[2] == "assign" and d[3]["rv"]["k"] == "use" and d[3]["rv"]["o"].get("v") == 0]
+    ors = [d for d in b.defs()[acc] if d[2] == "assign" and d[3]["rv"]["k"] == "bin" and d[3]["rv"]["op"] == "BitOr" and core.op_local(d[3]["rv"]["l"]) == acc]
+    other = [d for d in b.defs()[acc] if d not in zero and d not in ors]
+    nexts = [blk for blk, t in b.calls_to(r"Iterator>::next$|Iterator::next$")]
+    outer = [n for n in nexts if desc_contains(core.describe(prog, b, b.term(n)["args"][0]), lambda y: y[0] == "call" and y[1].endswith("::chunks")) and
+             not desc_contains(core.describe(prog, b, b.term(n)["args"][0]), lambda y: y[0] == "call" and y[1].endswith("::enumerate"))]
+    in_loop = bool(zero) and bool(outer) and all(core.must_pass(b, outer, outer, through_nodes=[z[0] for z in zero]) is None for _ in [0])
+    chk.ob(rule, fn, "the accumulator is reset to 0 for every group and only ever updated by `|=`", len(zero) == 1 and in_loop and not other and len(ors) >= 5,
+           f"{len(zero)} zeroing, {len(ors)} |= updates, {len(other)} other updates; reset on every group iteration: {in_loop}")
+
+    def is_i(d):
+        d = panics._strip(d)
+        # the index half of the (index, element) pair produced by enumerate().next(): projections of the call only
+        if not (isinstance(d, tuple) and d[0] == "field" and d[2] == 0):
+            return False
+        x = d[1]
+        while isinstance(x, tuple) and x[0] == "field":
+            x = x[1]
+        return isinstance(x, tuple) and x[0] == "call" and x[1].endswith("::next") and desc_contains(x, lambda y: y[0] == "call" and y[1].endswith("::enumerate"))
+    for d in ors:
+        r = core.describe(prog, b, d[3]["rv"]["r"])
+        ok, got = False, None
+        if isinstance(r, tuple) and r[0] == "bin" and r[1] == "Shl":
+            try:
+                e = qlin.from_desc(r[3], is_i, strip=panics._strip)
+                got = [e(i) for i in range(4)]
+                ok = got == [18, 12, 6, 0]
+            except qlin.NotQuasiLinear as x:
+                got = str(x)
+        chk.ob(rule, fn, f"update at {b.where(d[0]).split(':')[-1] if False else 'arm'} #{ors.index(d)}: symbol i is shifted by 18 - 6i (i = 0..3)", ok, f"shift amounts for i = 0..3: {got}", where=b.where(d[0]))
+    # output bytes
+    outs = b.calls_to(r"Vec::<T, A>::extend_from_slice$|Vec::<T, A>::push$|Extend<.*>>::extend$")
+    n_out = 0
+    for blk, t in outs:
+        v = core.describe(prog, b, t["args"][1])
+        if not desc_contains(v, lambda y: y[0] == "call" and y[1].endswith("to_be_bytes")):
+            chk.ob(rule, fn, "every output byte comes from the big-endian accumulator", False, f"{panics.short_desc(v)}", where=b.where(blk))
+            continue
+        n_out += 1
+        gets = [c for c in core.desc_calls(v) if c[1].endswith("::get") or c[1].endswith("::index")]
+        rng = gets[0][2][1] if gets and len(gets[0][2]) > 1 else None
+        tb = [c for c in core.desc_calls(v) if c[1].endswith("to_be_bytes")]
+        from_acc = bool(tb) and tb[0][2] and (tb[0][2][0][0] == "multi" or tb[0][2][0] == ("local", acc) or b.local_name(acc) in str(tb[0][2][0]))
+        ok = rng is not None and rng[0] == "variant" and rng[2] == "Range" and rng[3][0] == ("lit", 1)
+        end = rng[3][1] if ok else None
+        end_l = None
+        if end is not None and isinstance(end, tuple) and end[0] in ("multi", "local"):
+            end_l = end
+        chk.ob(rule, fn, "output = accumulator.to_be_bytes()[1..end]", ok and from_acc, f"{panics.short_desc(v)}", where=b.where(blk))
+    chk.floor("Base64 decoder output sites", n_out, 1)
+    # `end`: 4 unless '=' was met at position i, which also ends the group
+    ends = [l for l, loc in enumerate(b.locals) if loc["ty"] == "usize" and len(b.defs().get(l, [])) == 2 and
+            any(d[2] == "assign" and d[3]["rv"]["k"] == "use" and d[3]["rv"]["o"].get("v") == 4 for d in b.defs()[l])]
+    chk.floor("Base64 decoder end marker", len(ends), 1)
+    for l in ends[:1]:
+        setd = [d for d in b.defs()[l] if not (d[3]["rv"]["k"] == "use" and d[3]["rv"]["o"].get("v") == 4)]
+        ok = False
+        why = ""
+        for d in setd:
+            v = core.describe(prog, b, d[3]["rv"]["o"]) if d[3]["rv"]["k"] == "use" else None
+            gs = core.guards_dominating(prog, b, d[0])
+            on_pad = any(str(lab) in ("61", "'='") or lab == 61 for s_, lab, dd, info in gs)
+            inner = [n for n in nexts if n not in outer]
+            leaves = not any(n in b.reachable(b.succs(d[0])) and False for n in inner)
+            # after the assignment the inner (symbol) loop is not re-entered before the output site
+            outb = [blk for blk, t in outs]
+            w = core.must_pass(b, [d[0]], inner, through_nodes=outb) if inner and outb else None
+            ok = v is not None and is_i(v) and on_pad and w is None
+            why = f"value {panics.short_desc(v) if v else None}, under '=' arm: {on_pad}, ends the group: {w is None}"
+        chk.ob(rule, fn, "end = position of '=' (else 4), and '=' ends the group", ok, why)
+
+
 def _affine(e):
     """Affine normal form {var: coeff, '': const} of an integer HIR expression (casts/derefs peeled), or None."""
     e = hir_strip(e)
@@ -702,6 +801,7 @@ def run(chk):
     sha1_padding(chk, prog)
     base64(chk, prog, orc)
     base64_encoder_bits(chk, prog)
+    base64_decoder_structure(chk, prog)
     percent(chk, prog, orc)
     dates(chk, prog, orc)
     no_panic(chk, prog)
